@@ -211,6 +211,9 @@ fn run_history(out: &mut Out, root: &Path, r: &mut Rng, plan: &Plan, fixed: Opti
     let mut bad: Option<String> = None;
     let mut prev_frame: Option<Vec<u8>> = None;
     let mut had_crash = false;
+    let mut tear_pending = 0u8;
+    let mut body_tear_then_append = false;
+    let mut len_tear_then_append = false;
     let mut had_reopen_after_append = false;
     let mut last_ret = 0u64;
     let n_ops = if let Some(f) = &fixed { f.len() as u64 } else { plan.n_ops };
@@ -232,6 +235,12 @@ fn run_history(out: &mut Out, root: &Path, r: &mut Rng, plan: &Plan, fixed: Opti
         };
         match choice {
             Op::Append(e) => {
+                if tear_pending == 2 {
+                    body_tear_then_append = true;
+                } else if tear_pending == 1 {
+                    len_tear_then_append = true;
+                }
+                tear_pending = 0;
                 let w = wal.as_mut().unwrap();
                 let s = w.append(e.clone()).unwrap();
                 w.flush().unwrap();
@@ -293,6 +302,16 @@ fn run_history(out: &mut Out, root: &Path, r: &mut Rng, plan: &Plan, fixed: Opti
                         2 => 0,
                         _ => r.range(0, len),
                     } };
+                    // where does the tear fall? (frames of the newest file before the crash)
+                    let before = std::fs::read(fpath).unwrap();
+                    for fr in frames(&before) {
+                        let (st, en) = (fr.0 as u64, fr.1 as u64);
+                        if st + 4 <= k && k < en {
+                            tear_pending = 2; // length prefix complete, body cut (incl. 0 body bytes)
+                        } else if st < k && k < st + 4 {
+                            tear_pending = 1; // inside the length prefix
+                        }
+                    }
                     let f = std::fs::OpenOptions::new().write(true).open(fpath).unwrap();
                     f.set_len(k.min(len)).unwrap();
                     drop(f);
@@ -563,6 +582,14 @@ fn run_history(out: &mut Out, root: &Path, r: &mut Rng, plan: &Plan, fixed: Opti
     if had_crash {
         out.count("with_crash");
     }
+    // crash with the tear inside a record body (resp. length prefix), appends afterwards, and the
+    // final log read back + replayed (always done above)
+    if body_tear_then_append {
+        out.count("crash_body_tear_then_append");
+    }
+    if len_tear_then_append {
+        out.count("crash_len_tear_then_append");
+    }
     if had_reopen_after_append {
         out.count("reopen_after_append");
     }
@@ -621,10 +648,11 @@ fn main() {
     let base = if Path::new("/dev/shm").is_dir() { PathBuf::from("/dev/shm") } else { std::env::temp_dir() };
     let root = base.join(format!("verif-c15-{}", std::process::id()));
     std::fs::create_dir_all(&root).unwrap();
-    let shard = if args.thorough { 12 } else { 3 };
+    let shard = if args.thorough { 12 } else { 6 };
     let mut out = Out::new(&args, "From Verif Require Import Bincode Wal.", "Wal.case", "Wal.check_case", shard);
     out.rule = "fixed small histories (single append of every entry kind, reopen after 1..3 appends, checkpoint, crash at \
-                14 offsets of a two-record file incl. all boundaries) then random histories of append (payload pool incl. empty, multi-byte \
+                14 offsets of a two-record file incl. all boundaries; crash + append + reopen + append with the tear at \
+                every byte offset of the second record of a file and of the only record of a file) then random histories of append (payload pool incl. empty, multi-byte \
                 UTF-8, large strings, a valid frame embedded in a byte payload, boundary ids) / reopen / checkpoint / \
                 crash+reopen; files read back and compared byte for byte with the model; newest file truncated at every \
                 offset and every byte of every file changed in turn (sampled around record boundaries when the log is \
@@ -655,6 +683,26 @@ fn main() {
     }
     for f in fixed {
         run_history(&mut out, &root, &mut r0, &plan_small, Some(f));
+    }
+    // crash-then-append-then-replay with the tear at EVERY byte offset of a record
+    // (length prefix, every body offset, both boundaries), small probe budget per history:
+    //  (a) second record of a two-record file (a complete record survives in the file),
+    //  (b) the only record of the newest file (nothing survives in it: counter = file number)
+    let plan_crash = Plan { n_ops: 0, p_reopen: 0, p_ckpt: 0, p_crash: 0, big: false, max_probe: 40 };
+    let flen = 59u64; // frame of mk(i): 4 + 8 + (4 + 8+7 + 8 + 8 + 8) + 4
+    for k in flen..=2 * flen {
+        if k >= flen + 4 && k < 2 * flen {
+            out.count("sweep_body_offsets");
+        }
+        let f = vec![Op::Append(mk(1)), Op::Append(mk(2)), Op::Crash(k), Op::Append(mk(3)), Op::Reopen, Op::Append(mk(4))];
+        run_history(&mut out, &root, &mut r0, &plan_crash, Some(f));
+    }
+    for k in 0..=flen {
+        if k >= 4 && k < flen {
+            out.count("sweep_body_offsets");
+        }
+        let f = vec![Op::Append(mk(1)), Op::Reopen, Op::Append(mk(2)), Op::Crash(k), Op::Append(mk(3)), Op::Reopen, Op::Append(mk(4))];
+        run_history(&mut out, &root, &mut r0, &plan_crash, Some(f));
     }
 
     // random histories
